@@ -63,6 +63,16 @@ void DecodeDATA(IntType CodeIntType, IntType DataIntType) {
                 t.Contents.Int &= UnknownMask;
             }
 
+            /* make room: at most two code elements per character, up to four bytes each */
+
+            if (SetMaxCodeLen(
+                        (CodeLen + ((t.Typ == TempString) ? 2 * t.Contents.str.len + 1 : 1))
+                        * 4)) {
+                WrError(ErrNum_CodeOverflow);
+                ValOK = False;
+                break;
+            }
+
             switch (t.Typ) {
             case TempFloat:
                 WrStrErrorPos(ErrNum_StringOrIntButFloat, &ArgStr[z]);
